@@ -99,6 +99,19 @@ class CFG:
         return preds
 
     def _stmt(self, st, preds):
+        # `x = A if <test with a call> else B` (also return / expression statements): the test is a decision of its own -
+        # it may consult a stop condition - so it gets decision nodes and each arm its own statement node
+        v = getattr(st, "value", None) if isinstance(st, (ast.Assign, ast.AnnAssign, ast.Return, ast.Expr)) else None
+        if isinstance(v, ast.IfExp) and any(isinstance(x, ast.Call) for x in ast.walk(v.test)):
+            import copy as _copy
+
+            t, f = self._cond(v.test, preds, st)
+            outs = []
+            for arm, ps in ((v.body, t), (v.orelse, f)):
+                s2 = _copy.copy(st)
+                s2.value = arm
+                outs += self._stmt(s2, ps)
+            return outs
         if isinstance(st, ast.If):
             t, f = self._cond(st.test, preds, st)
             a = self._block(st.body, t)
@@ -384,6 +397,22 @@ _OPPOSITE = {"T": "F", "F": "T", "N": "NN", "NN": "N"}
 _IMPLIED = {"T": {"T", "NN"}, "F": {"F"}, "N": {"N", "F"}, "NN": {"NN"}}
 
 
+class ExitStates(set):
+    """States reaching the exit node; `by_label[label]` = those arriving over an edge with that label ('return', 'raise',
+    None for falling off the end, True / False for a loop or branch condition that exits)."""
+
+    def __init__(self, *a):
+        super().__init__(*a)
+        self.by_label: dict = {}
+
+    def normal(self) -> set:
+        out = set()
+        for lab, ss in self.by_label.items():
+            if lab != "raise":
+                out |= ss
+        return out
+
+
 def typestate(
     cfg: CFG,
     init: Iterable,
@@ -415,7 +444,7 @@ def typestate(
         at[cfg.entry.id].add(s)
         parent[(cfg.entry.id, s)] = None
         q.append((cfg.entry, w))
-    exits = set()
+    exits = ExitStates()
     count = 0
 
     def after_node(n, facts):
@@ -477,6 +506,8 @@ def typestate(
                 if s3 is KILL:
                     continue
                 w3 = (s3, f3)
+                if m is cfg.exit:
+                    exits.by_label.setdefault(lab, set()).add(s3)
                 if w3 not in at_w[m.id]:
                     at_w[m.id].add(w3)
                     if s3 not in at[m.id]:
